@@ -51,9 +51,20 @@ Inductive ty :=
 
 Inductive fkind := KElem | KAttr | KData.   (* ordinary member | XmlAttribute(T) | XmlData(T) *)
 
-(** one entry of _type_info with the Attributes of its type.  f_max = None is 'unbounded'. *)
+(** one entry of _type_info with the Attributes of its type.  f_max = None is 'unbounded'.
+    f_name is the key of the entry (the Python attribute); Attributes.sub_name / sub_ns give the member another
+    name / namespace on the wire (it is then found through _type_info_alt when a document is read). *)
 Record field := mkfield {
-  f_name : text; f_ty : ty; f_min : Z; f_max : option Z; f_nillable : bool; f_kind : fkind }.
+  f_name : text; f_ty : ty; f_min : Z; f_max : option Z; f_nillable : bool; f_kind : fkind;
+  f_sub_name : option text; f_sub_ns : option text }.
+
+(** the local name a member has on the wire *)
+Definition wname (f : field) : text := match f_sub_name f with Some n => n | None => f_name f end.
+Fixpoint sub_names (fs : list field) : list text :=
+  match fs with
+  | [] => []
+  | f :: r => match f_sub_name f with Some n => n :: sub_names r | None => sub_names r end
+  end.
 
 Record cls := mkcls { c_ns : text; c_name : text; c_parent : option cid; c_own : list field }.
 
@@ -105,11 +116,13 @@ Fixpoint nodup_text (l : list text) : bool :=
 (** XmlAttribute / XmlData wrap a primitive and are single-valued; an XmlData member is
     optional (nothing on the wire can be counted for it); the nillable flag of an Integer
     member is the one in its Attributes table *)
+Definition no_text (o : option text) : bool := match o with None => true | Some _ => false end.
 Definition field_shape_ok (f : field) : bool :=
   match f_kind f with
-  | KElem => true
-  | KAttr => negb (is_multi f) && match f_ty f with TLeaf _ => true | _ => false end
+  | KElem => match f_sub_ns f with Some [] => false | _ => true end
+  | KAttr => negb (is_multi f) && match f_ty f with TLeaf _ => true | _ => false end && no_text (f_sub_ns f)
   | KData => negb (is_multi f) && match f_ty f with TLeaf _ => true | _ => false end && (f_min f <=? 0)
+             && no_text (f_sub_ns f) && no_text (f_sub_name f)
   end
   && match f_ty f with
      | TLeaf (mkltype (SInt _ a) _) => Bool.eqb (na_nillable a) (f_nillable f)
@@ -137,7 +150,8 @@ Definition cls_ok (U : universe) (i : nat) (cl : cls) : bool :=
   && forallb (fun f => ty_ok (length U) (f_ty f) && field_shape_ok f) (c_own cl)
   && content_ok U cl
   && match flat_fields U i with
-     | Some fs => nodup_text (map f_name fs) && flat_content_ok fs
+     | Some fs => nodup_text (map f_name fs ++ sub_names fs)       (* member keys and wire names: pairwise distinct *)
+                  && flat_content_ok fs && forallb field_shape_ok fs
      | None => false
      end.
 Fixpoint wf_from (U : universe) (i : nat) (l : list cls) : bool :=
